@@ -833,7 +833,8 @@ func (e *kvElection) StopWithContext(ctx context.Context, opts StopOptions) erro
 	)
 
 	if opts.DeleteKey && wasLeader {
-		if !e.ownsRecord(termToken) {
+		ownedRev, owned := e.ownsRecord(termToken)
+		if !owned {
 			// Preempted, expired or replaced since our last heartbeat: the record
 			// (if any) belongs to a successor and must not be deleted.
 			log := e.getLogger()
@@ -843,7 +844,7 @@ func (e *kvElection) StopWithContext(ctx context.Context, opts StopOptions) erro
 					zap.String("reason", "record_not_owned"),
 				)...,
 			)
-		} else if err := e.kv.Delete(e.key); err != nil {
+		} else if err := e.deleteRecordAt(ownedRev); err != nil {
 			log := e.getLogger()
 			log.Warn("key_deletion_failed",
 				append(e.logWithContext(ctx),
@@ -920,22 +921,36 @@ func (e *kvElection) notifyDemotedByFailedStop() {
 }
 
 // ownsRecord reports whether the live leadership record still names this
-// instance and carries the given term token. The KeyValue interface has no
-// conditional delete, so a takeover between this read and a following Delete is
-// not excluded; but a record that already belongs to a successor is never deleted.
-func (e *kvElection) ownsRecord(token string) bool {
+// instance and carries the given term token, and the revision at which it was
+// read. A record that already belongs to a successor is never deleted.
+func (e *kvElection) ownsRecord(token string) (uint64, bool) {
 	if token == "" {
-		return false
+		return 0, false
 	}
 	entry, err := e.kv.Get(e.key)
 	if err != nil || entry == nil {
-		return false
+		return 0, false
 	}
 	var payload leadershipPayload
 	if err := json.Unmarshal(entry.Value(), &payload); err != nil {
-		return false
+		return 0, false
 	}
-	return payload.ID == e.cfg.InstanceID && payload.Token == token
+	if payload.ID != e.cfg.InstanceID || payload.Token != token {
+		return 0, false
+	}
+	return entry.Revision(), true
+}
+
+// deleteRecordAt deletes the leadership record that ownsRecord read at rev. A
+// takeover may land between that read and the deletion; a store that can delete
+// conditionally (RevisionDeleter, as the JetStream adapter does) then refuses the
+// deletion instead of removing the successor's record. Other stores only offer
+// the unconditional Delete.
+func (e *kvElection) deleteRecordAt(rev uint64) error {
+	if rd, ok := e.kv.(RevisionDeleter); ok {
+		return rd.DeleteRevision(e.key, rev)
+	}
+	return e.kv.Delete(e.key)
 }
 
 func (e *kvElection) Status() ElectionStatus {
